@@ -36,7 +36,7 @@ RULE = ("fbshape streams: one feedback edge of shape TS<Int> | TSB{a,b} | TSB{a,
         "add/remove/re-add incl. no-op operations, writes in the start cycle, in consecutive cycles, with gaps and in the last "
         "cycle before the end time; recorders on the producer and on the feedback port log per cycle the delta (which "
         "positions ticked with which values, added/removed) and the full value; thorough adds every TSB{a,b} history of 4 "
-        "cycles x every initial delta and every TSS history of 4 cycles over 2 elements. A case is non-trivial when the reader "
+        "cycles x every initial delta and every TSS history of 3 cycles over 2 elements (with/without initial delta). A case is non-trivial when the reader "
         "ticked in >=2 cycles; distinct by case text")
 TRUSTED = ["the recorders read modified()/valid()/value() per position (TSS added()/removed(), TSD modified_items()/"
            "removed_keys()) of the feedback port; values are Int; capture/apply of deltas in depth is C20's subject",
@@ -241,7 +241,7 @@ def check_trace(case, out):
             if prev_written:
                 feats.add("writes-in-consecutive-cycles")
         if fmt(kind, w) != fmt(kind, exp_w):
-            bad.append("[producer] t=%d the producer exposed %s but the script wrote %s" % (t, fmt(kind, w), fmt(kind, exp_w)))
+            bad.append("[producer] the producer did not expose what the script wrote: t=%d exposed %s, wrote %s" % (t, fmt(kind, w), fmt(kind, exp_w)))
         # -- the reader side: exactly what was written one smallest step earlier
         if pending is None:
             exp_r = None
@@ -257,37 +257,37 @@ def check_trace(case, out):
             rm, rr = r if r is not None else ({}, set())
             em, er = exp_r if exp_r is not None else ({}, set())
             if exp_r is None and w is not None and fmt(kind, r) == fmt(kind, w):
-                bad.append("[same-cycle] t=%d the reader saw %s in the cycle that wrote it" % (t, fmt(kind, r)))
+                bad.append("[same-cycle] the reader saw a delta in the cycle that wrote it: t=%d %s" % (t, fmt(kind, r)))
             elif exp_r is None:
-                bad.append("[untimely] t=%d the reader ticked with %s but nothing was written at t=%d%s"
+                bad.append("[untimely] the reader ticked although nothing was written one step earlier: t=%d saw %s, nothing written at t=%d%s"
                            % (t, fmt(kind, r), t - 1, "" if k else " and no initial delta was declared"))
             elif r is None:
-                bad.append("[lost] t=%d the reader did not tick; written at t=%d: %s" % (t, t - 1, fmt(kind, exp_r)))
+                bad.append("[lost] a written delta was not delivered one step later: t=%d the reader did not tick; written at t=%d: %s" % (t, t - 1, fmt(kind, exp_r)))
             else:
                 extra = sorted(set(rm) - set(em)) + sorted(rr - er)
                 missing = sorted(set(em) - set(rm)) + sorted(er - rr)
                 if extra:
-                    bad.append("[spurious] t=%d position(s) %s ticked at the reader (%s) but the delta written at t=%d was %s"
+                    bad.append("[spurious] position(s) nobody wrote ticked at the reader: t=%d position(s) %s (reader saw %s, the delta written at t=%d was %s)"
                                % (t, extra, fmt(kind, r), t - 1, fmt(kind, exp_r)))
                 elif missing:
-                    bad.append("[lost] t=%d position(s) %s written at t=%d did not tick at the reader: saw %s, written %s"
+                    bad.append("[lost] a written delta was not delivered completely: t=%d position(s) %s written at t=%d did not tick at the reader: saw %s, written %s"
                                % (t, missing, t - 1, fmt(kind, r), fmt(kind, exp_r)))
                 else:
-                    bad.append("[value] t=%d the reader's delta %s differs in values from the written %s"
+                    bad.append("[value] the reader's delta differs in values from the written one: t=%d saw %s, written %s"
                                % (t, fmt(kind, r), fmt(kind, exp_r)))
         elif r is not None:
             n_ticks += 1
         if exp_r is not None and r is not None and fmt("dict" if kind != "set" else "set", v) != fmt("dict" if kind != "set" else "set", exp_v):
-            bad.append("[accumulated] t=%d the reader's value %s is not the fold of the written deltas %s"
+            bad.append("[accumulated] the reader's value is not the fold of the written deltas: t=%d value %s, fold %s"
                        % (t, fmt("dict" if kind != "set" else "set", v), fmt("dict" if kind != "set" else "set", exp_v)))
         # -- quiescence: a cycle runs only when the producer is scripted or a delivery is due
         exp_cyc = ops is not None or pending is not None
         if cyc != exp_cyc:
             if cyc:
-                bad.append("[quiescence] t=%d the engine ran a cycle although nothing was written at t=%d and the producer is idle"
+                bad.append("[quiescence] the engine ran a cycle although nothing is due: t=%d, nothing written at t=%d and the producer is idle"
                            % (t, t - 1))
             else:
-                bad.append("[lost] t=%d no engine cycle although a delivery is due" % t)
+                bad.append("[lost] a written delta was not delivered one step later: no engine cycle at t=%d although a delivery is due" % t)
         if ops is None and pending is None:
             feats.add("idle-step(gap)")
         prev_written = ops is not None
@@ -444,11 +444,11 @@ def exhaustive_small(start_idx):
                     lines.append("c " + w2s("fix", m, set()))
             lines += ["c -", "run"]
             cases.append(Case(lines)); idx += 1
-    # every TSS history of 4 cycles over elements {1,2}: per cycle nothing / +1 / -1 / +2 / -2 / +1,+2 / -1,-2 / +1,-2 / -1,+2
+    # every TSS history of 3 cycles over elements {1,2}: per cycle nothing / +1 / -1 / +2 / -2 / +1,+2 / -1,-2 / +1,-2 / -1,+2
     sopts = [None, ({1: 0}, set()), ({}, {1}), ({2: 0}, set()), ({}, {2}), ({1: 0, 2: 0}, set()), ({}, {1, 2}),
              ({1: 0}, {2}), ({2: 0}, {1})]
     for init in (None, ({1: 0}, set())):
-        for hist in itertools.product(sopts, repeat=4):
+        for hist in itertools.product(sopts, repeat=3):
             if all(h is None for h in hist):
                 continue
             lines = ["case %d" % idx, "shape tss" + ((" init " + w2s("set", init[0], init[1])) if init else "")]
@@ -460,7 +460,7 @@ def exhaustive_small(start_idx):
 
 
 def streams(rng, tier, seed):
-    n = 700 if tier == "quick" else 16000
+    n = 700 if tier == "quick" else 12000
     cases = [gen_case(rng, i) for i in range(n)]
     if tier != "quick":
         cases += exhaustive_small(n)
